@@ -140,4 +140,56 @@ THEOREM LemmaAllowsAllUnion ==
 <1>4. In(A[i].lo, A[i].up, p)
   BY <1>1, <1>3, LemmaAllowsAll
 <1> QED BY <1>4 DEF InR
+
+\* C08 for ranges, one fold step: subtracting b from every piece of a set of valid pieces removes exactly b.
+\* (Difference(A, B) of Interval.tla folds this step over the alternatives of B, starting from {a} for each
+\* alternative a of A; the fold itself is model-checked, MC_Interval with Alts = 2.)
+Valid(x) == LowBelowUp(x.lo, x.up)
+Pieces(a, b) ==
+  (IF b.lo.k # "unb" /\ LowBelowUp(a.lo, MinUp(a.up, FlipToUp(b.lo)))
+     THEN {[lo |-> a.lo, up |-> MinUp(a.up, FlipToUp(b.lo))]} ELSE {})
+  \cup
+  (IF b.up.k # "unb" /\ LowBelowUp(MaxLo(a.lo, FlipToLo(b.up)), a.up)
+     THEN {[lo |-> MaxLo(a.lo, FlipToLo(b.up)), up |-> a.up]} ELSE {})
+InSet(Ps, p) == \E x \in Ps : In(x.lo, x.up, p)
+
+THEOREM LemmaPieces ==
+  ASSUME NEW a \in Ivl, NEW b \in Ivl, NEW p \in S, Valid(a), Valid(b)
+  PROVE  /\ InSet(Pieces(a, b), p) <=> (In(a.lo, a.up, p) /\ ~In(b.lo, b.up, p))
+         /\ \A x \in Pieces(a, b) : x \in Ivl /\ Valid(x)
+<1>0. a.lo \in Bnd /\ a.up \in Bnd /\ b.lo \in Bnd /\ b.up \in Bnd
+  BY DEF Ivl
+<1>1. (LET P1Up == MinUp(a.up, FlipToUp(b.lo))
+           P2Lo == MaxLo(a.lo, FlipToLo(b.up))
+           InP1 == b.lo.k # "unb" /\ LowBelowUp(a.lo, P1Up) /\ In(a.lo, P1Up, p)
+           InP2 == b.up.k # "unb" /\ LowBelowUp(P2Lo, a.up) /\ In(P2Lo, a.up, p)
+       IN  (InP1 \/ InP2) <=> (In(a.lo, a.up, p) /\ ~In(b.lo, b.up, p)))
+  BY <1>0, LemmaDifference DEF Valid
+<1>2. InSet(Pieces(a, b), p) <=>
+        \/ (b.lo.k # "unb" /\ LowBelowUp(a.lo, MinUp(a.up, FlipToUp(b.lo))) /\ In(a.lo, MinUp(a.up, FlipToUp(b.lo)), p))
+        \/ (b.up.k # "unb" /\ LowBelowUp(MaxLo(a.lo, FlipToLo(b.up)), a.up) /\ In(MaxLo(a.lo, FlipToLo(b.up)), a.up, p))
+  BY DEF InSet, Pieces
+<1>3. FlipToUp(b.lo) \in Bnd /\ FlipToLo(b.up) \in Bnd
+  BY <1>0 DEF Bnd, Kinds, FlipToUp, FlipToLo
+<1>4. MinUp(a.up, FlipToUp(b.lo)) \in Bnd /\ MaxLo(a.lo, FlipToLo(b.up)) \in Bnd
+  BY <1>0, <1>3 DEF MinUp, MaxLo
+<1>5. \A x \in Pieces(a, b) : x \in Ivl /\ Valid(x)
+  BY <1>0, <1>4 DEF Pieces, Ivl, Valid
+<1> QED BY <1>1, <1>2, <1>5
+
+SubStep(Ps, b) == UNION {Pieces(x, b) : x \in Ps}
+THEOREM LemmaDifferenceStep ==
+  ASSUME NEW Ps \in SUBSET Ivl, NEW b \in Ivl, NEW p \in S, Valid(b), \A x \in Ps : Valid(x)
+  PROVE  /\ InSet(SubStep(Ps, b), p) <=> (InSet(Ps, p) /\ ~In(b.lo, b.up, p))
+         /\ SubStep(Ps, b) \in SUBSET Ivl /\ \A x \in SubStep(Ps, b) : Valid(x)
+<1>1. \A x \in Ps : /\ InSet(Pieces(x, b), p) <=> (In(x.lo, x.up, p) /\ ~In(b.lo, b.up, p))
+                    /\ \A y \in Pieces(x, b) : y \in Ivl /\ Valid(y)
+  BY LemmaPieces
+<1>2. InSet(SubStep(Ps, b), p) <=> \E x \in Ps : InSet(Pieces(x, b), p)
+  BY DEF InSet, SubStep
+<1>3. InSet(SubStep(Ps, b), p) <=> (InSet(Ps, p) /\ ~In(b.lo, b.up, p))
+  BY <1>1, <1>2 DEF InSet
+<1>4. \A y \in SubStep(Ps, b) : y \in Ivl /\ Valid(y)
+  BY <1>1 DEF SubStep
+<1> QED BY <1>3, <1>4
 =============================================================================
